@@ -11,6 +11,11 @@
 // Members that do not compile on the pinned tree (xofa absorb(const char*),
 // absorb(std::string)) are only used when C17_XOFA_STRING_OK is defined; the
 // compile coverage of tools/gen_cpp_members.py decides that.
+// With -DASCON_NO_STL (the second, "nostl" harness of lib/p_c17.py: this file +
+// main.cpp + h_trng.cpp, linked with src/cplusplus/*.cpp compiled with the same
+// definition) ascon::byte_array is the library's own class: byte arrays are
+// then built with mk_ba(), and the members that only exist with the STL
+// (std::string overloads, bytes_to_hex) answer / are marked SKIPPED-NOSTL.
 #include "hx.h"
 #include <string>
 #include <vector>
@@ -39,6 +44,28 @@ static std::vector<std::string> split(const std::string &s, char sep) {
 }
 static const unsigned char JUNK = 0xC7;     // storage contents before construction (Model: junk)
 static const unsigned char BAOLD = 0xDD;    // old contents (3 bytes) of an output byte_array
+
+// an ascon::byte_array holding the given bytes.  The library's own class (ASCON_NO_STL) has no iterator-range
+// constructor; an empty one is either the default-constructed array (no buffer, data() == 0, like an empty
+// std::vector) or a zero-sized array that owns a buffer: ba_coin(), a function of the text of the line and of the
+// number of earlier tosses in it, decides (the printed result must not depend on it).
+static unsigned g_ba_alt = 0;
+static void ba_line(const Toks &t) { unsigned h = 0; for (size_t i = 0; i < t.size(); ++i) for (size_t j = 0; j < t[i].size(); ++j) h = h * 31u + (unsigned char)t[i][j]; g_ba_alt = h; }
+static bool ba_coin() { g_ba_alt = g_ba_alt * 1103515245u + 12345u; return ((g_ba_alt >> 16) & 1u) != 0; }
+static ascon::byte_array mk_ba(const Bytes &v) {
+#if defined(ASCON_NO_STL)
+    if (v.empty() && ba_coin()) return ascon::byte_array();
+    ascon::byte_array b(v.size());
+    if (!v.empty()) memcpy(b.data(), v.data(), v.size());
+    return b;
+#else
+    return ascon::byte_array(v.begin(), v.end());
+#endif
+}
+// In half of the calls the output array shares its buffer with a copy taken before the call (the library's own class
+// counts references; std::vector copies): the copy must keep the old contents, whatever the call does to the output.
+static ascon::byte_array ba_keep(const ascon::byte_array &out) { return ba_coin() ? ascon::byte_array(out) : ascon::byte_array(3, BAOLD); }
+static bool ba_old(const ascon::byte_array &keep) { return keep.size() == 3 && keep.data()[0] == BAOLD && keep.data()[1] == BAOLD && keep.data()[2] == BAOLD; }
 
 // a pointer argument: NULL or a buffer of exactly the given bytes
 struct Ptr {
@@ -277,9 +304,10 @@ struct Run {
                     r = noad ? o->encrypt(c.p, bm.p, bm.n) : o->encrypt(c.p, bm.p, bm.n, bad.p, bad.n);
                     got.assign(c.p, c.p + m.size() + 16);
                 } else {
-                    ascon::byte_array bc(3, BAOLD), bm(m.begin(), m.end()), bad(ad.begin(), ad.end());
+                    ascon::byte_array bc(3, BAOLD), bm(mk_ba(m)), bad(mk_ba(ad)), keep(ba_keep(bc));
                     if (noad) o->encrypt(bc, bm); else o->encrypt(bc, bm, bad);
                     got.assign(bc.begin(), bc.end()); r = (long)bc.size();
+                    if (!ba_old(keep) || bm.size() != m.size() || !same(bm.data(), m.data(), m.size())) out.put(" EB-ARGS-CHANGED");
                 }
                 // (b) the C function under the state the object held
                 Buf bm2(m, true), bad2(ad, true), c2(m.size() + 16); size_t clen2 = 0;
@@ -324,9 +352,10 @@ struct Run {
                         else if (!same(mb.p, m3.p, cap)) note("out");
                     }
                 } else {
-                    ascon::byte_array bm(3, BAOLD), bct(ct.begin(), ct.end()), badv(ad.begin(), ad.end());
+                    ascon::byte_array bm(3, BAOLD), bct(mk_ba(ct)), badv(mk_ba(ad)), keep(ba_keep(bm));
                     bool ok = noad ? o->decrypt(bm, bct) : o->decrypt(bm, bct, badv);
                     got.assign(bm.begin(), bm.end());
+                    if (!ba_old(keep) || bct.size() != ct.size() || !same(bct.data(), ct.data(), ct.size())) out.put(" DB-ARGS-CHANGED");
                     fwd = ok ? (r2 >= 0 && got.size() == mlen2 && same(got.data(), m2.p, mlen2)) : (r2 < 0 && got.empty());
                     out.put(" DB[r=" + std::to_string(ok ? 1 : 0) + ",len=" + std::to_string(got.size()) + ",n=" + nonce() + ",fwd=" + (fwd ? "ok" : "BAD")
                             + ",m=" + hex(got) + "]");
@@ -375,6 +404,7 @@ static std::string forked(Cls &x, const Toks &t) {
 
 static std::string op_cpx(const Toks &t) {
     const std::string &c = t[1];
+    ba_line(t);
 #define DISPATCH(N) if (c == #N) { static Cls_##N x; return forked(x, t); }
     DISPATCH(aead128) DISPATCH(aead128a) DISPATCH(aead80pq)
     DISPATCH(aead128_masked) DISPATCH(aead128a_masked) DISPATCH(aead80pq_masked)
@@ -410,7 +440,11 @@ struct XofaC {
 // the const char* / std::string overloads: for xofa only where they compile
 template <class T> struct StrAbsorb {
     static bool cstr(T &o, const char *s) { o.absorb(s); return true; }
+#if !defined(ASCON_NO_STL)
     static bool str(T &o, const std::string &s) { o.absorb(s); return true; }
+#else
+    static bool str(T &, const std::string &) { return false; }        // no absorb(const std::string &) without the STL
+#endif
 };
 #ifndef C17_XOFA_STRING_OK
 template <size_t L> struct StrAbsorb<ascon::xofa_with_output_length<L> > {
@@ -456,7 +490,8 @@ template <class T, class A, size_t L> static std::string xof_run(const Toks &t) 
     Bytes co, xo;
     std::string e = c_side<A>(t, bar + 1, L, co);
     if (!e.empty()) return e;
-    T *o = 0; std::string skipped;
+    T *o = 0; std::string skipped, nostl;
+    ba_line(t);
     {   std::vector<std::string> f = split(t[3], ':');
         if (f[0] == "D") o = new T();
         else if (f[0] == "N") {       // named constructors: N:<name|NULL>:<custom>:<form>
@@ -464,18 +499,23 @@ template <class T, class A, size_t L> static std::string xof_run(const Toks &t) 
             Bytes cu = unhex(f[2]); Buf cb(cu, true);
             if (f[3] == "1") o = new T(nm);                     // (name): custom = 0, customlen = 0
             else if (f[3] == "3") o = new T(nm, cb.p, cb.n);
-            else { ascon::byte_array b(cu.begin(), cu.end()); o = new T(nm, b); }
+            else { ascon::byte_array b(mk_ba(cu)); o = new T(nm, b); }
         } else return "BADCTOR";
     }
     for (size_t i = 4; i < bar; ++i) {
         std::vector<std::string> f = split(t[i], ':');
         const std::string &c = f[0];
         if (c == "A") { Bytes d = unhex(f[1]); Buf b(d, true); o->absorb(b.p, b.n); }
-        else if (c == "AB") { Bytes d = unhex(f[1]); ascon::byte_array b(d.begin(), d.end()); o->absorb(b); }
+        else if (c == "AB") { Bytes d = unhex(f[1]); ascon::byte_array b(mk_ba(d)); o->absorb(b); }
         else if (c == "AC") { if (f[1] == "NULL") { if (!StrAbsorb<T>::cstr(*o, 0)) skipped = " SKIPPED-NONCOMPILING"; }
                               else { Bytes d = unhex(f[1]); d.push_back(0); if (!StrAbsorb<T>::cstr(*o, (const char *)d.data())) { skipped = " SKIPPED-NONCOMPILING";
                                      o->absorb(d.data(), strlen((const char *)d.data())); } } }
-        else if (c == "AS") { Bytes d = unhex(f[1]); std::string s((const char *)d.data(), d.size()); if (!StrAbsorb<T>::str(*o, s)) { skipped = " SKIPPED-NONCOMPILING";
+        else if (c == "AS") { Bytes d = unhex(f[1]); std::string s((const char *)d.data(), d.size()); if (!StrAbsorb<T>::str(*o, s)) {
+#if defined(ASCON_NO_STL)
+                                     nostl = " SKIPPED-NOSTL";
+#else
+                                     skipped = " SKIPPED-NONCOMPILING";
+#endif
                                      o->absorb(d.data(), d.size()); } }
         else if (c == "Q") { size_t n = (size_t)atol(f[1].c_str()); Buf b(n); o->squeeze(b.p, n); xo.insert(xo.end(), b.p, b.p + n); }
         else if (c == "QB") { size_t n = (size_t)atol(f[1].c_str()); ascon::byte_array b = o->squeeze(n); if (b.size() != n) return "SQUEEZE-SIZE"; xo.insert(xo.end(), b.begin(), b.end()); }
@@ -489,7 +529,7 @@ template <class T, class A, size_t L> static std::string xof_run(const Toks &t) 
     }
     { Buf b(24); o->squeeze(b.p, 24); xo.insert(xo.end(), b.p, b.p + 24); }
     delete o;
-    return hex(xo) + (xo == co ? " C=ok" : " C=MISMATCH:" + hex(co)) + skipped;
+    return hex(xo) + (xo == co ? " C=ok" : " C=MISMATCH:" + hex(co)) + skipped + nostl;
 }
 
 template <class A, template <size_t> class TT> static std::string xof_dispatch(const Toks &t) {
@@ -547,13 +587,18 @@ template <class T, class A> static std::string hash_run(const Toks &t) {
         }
         Buf b(32); A::finalize(&cur, b.p); co.insert(co.end(), b.p, b.p + 32); A::free_(&cur);
     }
-    T *o = new T();
+    T *o = new T(); std::string nostl;
+    ba_line(t);
     for (size_t i = 2; i < bar; ++i) {
         std::vector<std::string> f = split(t[i], ':'); const std::string &c = f[0];
         if (c == "U") { Bytes d = unhex(f[1]); Buf b(d, true); o->update(b.p, b.n); }
-        else if (c == "UB") { Bytes d = unhex(f[1]); ascon::byte_array b(d.begin(), d.end()); o->update(b); }
+        else if (c == "UB") { Bytes d = unhex(f[1]); ascon::byte_array b(mk_ba(d)); o->update(b); }
         else if (c == "UC") { if (f[1] == "NULL") o->update((const char *)0); else { Bytes d = unhex(f[1]); d.push_back(0); o->update((const char *)d.data()); } }
+#if !defined(ASCON_NO_STL)
         else if (c == "US") { Bytes d = unhex(f[1]); o->update(std::string((const char *)d.data(), d.size())); }
+#else
+        else if (c == "US") { Bytes d = unhex(f[1]); o->update(d.data(), d.size()); nostl = " SKIPPED-NOSTL"; }     // no update(const std::string &)
+#endif
         else if (c == "F") { Buf b(32); o->finalize(b.p); xo.insert(xo.end(), b.p, b.p + 32); }
         else if (c == "FB") { ascon::byte_array b = o->finalize(); if (b.size() != 32) return "FINALIZE-SIZE"; xo.insert(xo.end(), b.begin(), b.end()); }
         else if (c == "DG") { Bytes d = unhex(f[1]); Buf b(d, true), r(32); T::digest(r.p, b.p, b.n); xo.insert(xo.end(), r.p, r.p + 32); }
@@ -566,7 +611,7 @@ template <class T, class A> static std::string hash_run(const Toks &t) {
     }
     { Buf b(32); o->finalize(b.p); xo.insert(xo.end(), b.p, b.p + 32); }
     delete o;
-    return hex(xo) + (xo == co ? " C=ok" : " C=MISMATCH:" + hex(co));
+    return hex(xo) + (xo == co ? " C=ok" : " C=MISMATCH:" + hex(co)) + nostl;
 }
 static std::string op_hshx(const Toks &t) {
     if (t[1] == "hash") return hash_run<ascon::hash, HashC>(t);
@@ -582,17 +627,23 @@ static Reg r_hshx("HSHX", op_hshx);
 // UTL FROMHEX <chars as hex> <L|C|S> bytes_from_hex(str,len) / (const char*) / (std::string);  C with NULL
 // Each prints the C++ result and C=ok when the C function gives the same.
 static std::string op_utl(const Toks &t) {
+    ba_line(t);
+#if defined(ASCON_NO_STL)
+    // bytes_to_hex (both forms) and bytes_from_hex(const std::string &) do not exist without the STL (utility.h:303)
+    if (t[1] == "TOHEX" || t[1] == "TOHEXD" || (t[1] == "FROMHEX" && t[3] == "S")) return "SKIPPED-NOSTL";
+#else
     if (t[1] == "TOHEX" || t[1] == "TOHEXD") {
         bool dflt = t[1] == "TOHEXD";
         Bytes d = unhex(t[2]); bool up = !dflt && t[3] == "1"; const std::string &form = t[dflt ? 3 : 4];
         std::string s;
         if (form == "P") { Buf b(d, true); s = dflt ? ascon::bytes_to_hex(b.p, b.n) : ascon::bytes_to_hex(b.p, b.n, up); }
-        else { ascon::byte_array b(d.begin(), d.end()); s = dflt ? ascon::bytes_to_hex(b) : ascon::bytes_to_hex(b, up); }
+        else { ascon::byte_array b(mk_ba(d)); s = dflt ? ascon::bytes_to_hex(b) : ascon::bytes_to_hex(b, up); }
         std::vector<char> o(d.size() * 2 + 1); Buf b(d, true);
         int r = ascon_bytes_to_hex(o.data(), o.size(), b.p, b.n, up ? 1 : 0);
         bool ok = r == (int)(d.size() * 2) && s == std::string(o.data(), (size_t)r);
         return "S=" + (s.empty() ? std::string("-") : s) + (ok ? " C=ok" : " C=MISMATCH:" + std::string(o.data(), r > 0 ? (size_t)r : 0));
     }
+#endif
     if (t[1] == "FROMDATA") {
         Bytes d = unhex(t[2]); Buf b(d);
         ascon::byte_array v = ascon::bytes_from_data(b.p, b.n);
@@ -604,7 +655,9 @@ static std::string op_utl(const Toks &t) {
         const std::string &form = t[3];
         if (form == "L") { Buf b(chars, true); v = ascon::bytes_from_hex((const char *)b.p, b.n); }
         else if (form == "C") { if (null) v = ascon::bytes_from_hex((const char *)0); else { Bytes z = chars; z.push_back(0); v = ascon::bytes_from_hex((const char *)z.data()); chars.resize(strlen((const char *)z.data())); } }
+#if !defined(ASCON_NO_STL)
         else { v = ascon::bytes_from_hex(std::string((const char *)chars.data(), chars.size())); }
+#endif
         Buf o(chars.size() / 2), cb(chars, true);
         int r = ascon_bytes_from_hex(o.p, o.n, (const char *)cb.p, cb.n);
         bool ok = r < 0 ? v.empty() : (v.size() >= (size_t)r && same(v.data(), o.p, (size_t)r));
